@@ -11,7 +11,7 @@ from .. import gen, ref
 from . import _c05_reg as R
 from ._c05_reg import op
 
-T = gen.build_tensor
+T = R.CS.build_tensor
 
 
 def dense(tier, **kw):
@@ -206,7 +206,7 @@ def g_scale(draw, tier):
 def _(ctx, c):
     X = T(c)
     fshape = [c["shape"][d] for d in c["dims"]]
-    F = gen.arr_F(fshape, c["factor"]).copy(order="F")
+    F = R.CS.aux(c, gen.arr_F(fshape, c["factor"]).copy(order="F"))
     factor = F if c["fkind"] == "ndarray" else ttb.tensor(F, tuple(fshape))
     ctx.label("factor-" + c["fkind"], "all-dims" if len(c["dims"]) == len(c["shape"]) else "some-dims")
     d = R.as_form(c["dims"], c["form"])
@@ -249,7 +249,7 @@ def g_mttkrp(draw, tier):
 def build_U(c):
     mats = [R.mat(m, s, c["r"]) for m, s in zip(c["U"], c["shape"])]
     if c["ukind"] == "list":
-        return mats
+        return [R.CS.aux(c, m) for m in mats]
     w = np.array(c["w"], dtype=float) if c["ukind"] == "ktensor-weights" else np.ones(c["r"])
     return ttb.ktensor(mats, w)
 
@@ -317,7 +317,7 @@ def ttm_args(ctx, c, shape):
     cols = list(shape)
     if c["transpose"]:
         rows, cols = cols, rows
-    per_mode = [R.mat(m, r, k) for m, r, k in zip(c["mats"], rows, cols)]
+    per_mode = [R.mat(m, r, k, c) for m, r, k in zip(c["mats"], rows, cols)]
     if c["identity"]:
         per_mode = [np.eye(shape[m]) for m in range(n)]
     ops = {}
@@ -406,7 +406,7 @@ def g_ttv(draw, tier):
 
 def ttv_args(ctx, c, shape):
     n = len(shape)
-    per_mode = [np.array(v, dtype=float) for v in c["vecs"]]
+    per_mode = [R.CS.aux(c, np.array(v, dtype=float)) for v in c["vecs"]]
     ops = {}
     kw = R.dims_kwargs(c["d"], ops)
     if c["single"]:
@@ -444,7 +444,7 @@ def g_ttsv(draw, tier):
 @op("tensor/ttsv", g_ttsv)
 def _(ctx, c):
     X = T(c)
-    v = np.array(c["v"], dtype=float)
+    v = R.CS.aux(c, np.array(c["v"], dtype=float))
     if c["form"] == "list":
         v = [float(x) for x in c["v"]]
     elif c["form"] == "column":
